@@ -501,8 +501,6 @@ thread_local! { static RAW_BUDGET: RefCell<BTreeMap<String, u32>> = RefCell::new
 fn raw_budget(op: &str, tag: &str) -> bool {
     let known = match op {
         "sizes" => tag.starts_with("wsh.") || tag.starts_with("shwsh.") || tag.starts_with("shwpkh."),
-        "psbt-keys" | "psbt-finalize" => tag == "pkhdissat",
-        "psbt-leafhashes" => tag == "withkeys",
         _ => false,
     };
     if !known { return true; }
@@ -832,14 +830,19 @@ fn psbt_check(out: &mut Out, dd: &DD, plan: &DPlan, ps: &PSat, pwit: &[Vec<u8>],
     let mut points: Vec<Vec<u8>> = needed.iter().map(|id| kent(*id).pk.inner.serialize().to_vec()).collect();
     points.sort(); let np = points.len(); points.dedup();
     if points.len() != np { out.count("psbt-keys skipped: two needed keys share a curve point"); }
-    else if !pkh_dissat || raw_budget("psbt-keys", class) {
+    else if pkh_dissat {
+        // beyond C17's statement (SCOPE RULE): counted, not judged
+        out.count("observation: update_psbt_input writes no origin for a key whose PUBLIC KEY the plan pushes (pk_h dissatisfied)");
+    } else {
         out.line(&format!("J psbt-keys {}.{} {} {} {} A:b32={};tko={} E:b32={};tko={}", class, tag, mode, dd.name, aw, a_b32, a_tko, j(e_b32), j(e_tko)), "ok");
     }
     if tr {
         let sub = if leaf_of.is_empty() { "nokeys" } else { "withkeys" };
         let signing: BTreeSet<String> = sig_keys.iter().map(|id| hex(&kent(*id).pk.inner.x_only_public_key().0.serialize())).collect();
         let a_lh = j(a_lh.split(',').filter(|e| signing.contains(e.split(':').next().unwrap_or(""))).map(|e| e.to_string()).collect());
-        if leaf_of.is_empty() || raw_budget("psbt-leafhashes", sub) {
+        if !leaf_of.is_empty() {
+            if a_lh != j(e_lh.clone()) { out.count("observation: update_psbt_input records a script-path key in tap_key_origins with an empty leaf-hash list"); }
+        } else {
             out.line(&format!("J psbt-leafhashes {}.{} {} {} {} A:{} E:{}", sub, tag, mode, dd.name, aw, a_lh, j(e_lh)), "ok");
         }
     }
@@ -890,7 +893,9 @@ fn psbt_check(out: &mut Out, dd: &DD, plan: &DPlan, ps: &PSat, pwit: &[Vec<u8>],
             ("ok".to_string(), wit_wire(&w), hex(ss.as_bytes()))
         }
     };
-    if !pkh_dissat || raw_budget("psbt-finalize", class) {
+    if pkh_dissat {
+        if res != "ok" { out.count("observation: PSBT updated by the plan + all requested signatures does not finalize (pushed key without origin)"); }
+    } else {
         out.line(&format!("J psbt-finalize {}.{} {} {} {} {} {} {} {} {}", class, tag, mode, dd.name, aw, res, fw, fs, wit_wire(pwit), hex(pss.as_bytes())), "ok");
     }
 }
@@ -1117,6 +1122,11 @@ fn raw_variants(dd: &DD) -> Vec<PA> {
         let mut b = full.clone(); b.rawsig.insert(*h); v.push(b);
     }
     { let mut a = PA::default(); a.rawpk = all.clone(); a.rawsig = all; a.abs = full.abs; a.rel = full.rel; v.push(a); }
+    // taproot: without the key path, so that the raw-key-hash leaves are really used
+    if dd.internal.is_some() {
+        let more: Vec<PA> = v.iter().map(|a| { let mut b = a.clone(); for s in b.srcs.iter_mut() { s.key_spend = false; } b }).collect();
+        v.extend(more);
+    }
     let mut seen = BTreeSet::new();
     v.retain(|a| seen.insert(a.clone()));
     v
@@ -1244,6 +1254,7 @@ pub fn run(out: &mut Out, thorough: bool, seed: u64) {
     // ---- adversarial assets: no panic (origin-less keys vs same-fingerprint sources of any depth)
     adversarial(out);
     std::panic::set_hook(old_hook);
+    out.note("observations", "beyond the statement of C17, counted only (hist keys `observation: …`): Plan::update_psbt_input (1) inserts a script-path key into tap_key_origins with an EMPTY leaf-hash list on first insertion, e.g. tr(K,pk(A)) without key-path signing; (2) writes no bip32_derivation / tap_key_origins entry for a key whose public key (not signature) the plan pushes, e.g. sh(or_b(pkh(A),sn:ripemd160(H))) with only the preimage of H, (3) whereupon the updated and fully signed PSBT does not finalize".into());
     out.note("descriptors", n_desc.to_string());
     out.note("distinct_nontrivial", n_desc.to_string());
     out.note("domain", "definite descriptors (bare/pkh/sh/wpkh/sh-wpkh/wsh/sh-wsh/tr; single keys with/without origin, xpub-derived keys of one master) x plan::Assets (key sources exact/parent/grand-parent/child/sibling/other-fingerprint, CanSign shapes, per-leaf availability, preimage subsets, max abs/rel lock below/at/above each lock and other unit) x {plan, plan_mall}".into());
